@@ -2,6 +2,7 @@ package main
 
 import (
 	"fmt"
+	"strconv"
 	"time"
 
 	"github.com/johnkerl/miller/v6/pkg/climain"
@@ -12,6 +13,11 @@ import (
 // runVerbs drives real transformers (built by the real command-line parser) record by record,
 // one transformer after another, without reader, writer, goroutines or channels in between.
 // argv = verb chain, e.g. ["head","-n","2","then","tac"].
+// scrambleContexts: give the records contexts whose NR/FNR/FILENAME do NOT reflect arrival order
+// (as happens downstream of any verb that drops or reorders records): verbs that do not
+// document a dependence on the original record counters must behave identically.
+var scrambleContexts = false
+
 func runVerbs(argv []string, rs []record, filename string) ([]record, []string, error) {
 	full := append([]string{"mlr", "--norc"}, argv...)
 	_, trs, err := climain.ParseCommandLine(full)
@@ -23,8 +29,17 @@ func runVerbs(argv []string, rs []record, filename string) ([]record, []string, 
 		ctx.UpdateForStartOfFile(filename)
 	}
 	var cur []*types.RecordAndContext
-	for _, r := range rs {
+	for i, r := range rs {
 		ctx.UpdateForInputRecord()
+		if scrambleContexts {
+			c2 := *ctx
+			c2.NR = int64(1000 - 7*i)
+			c2.FNR = int64((i*5)%3 + 1)
+			c2.FILENUM = int64(i%2 + 1)
+			c2.FILENAME = "g" + strconv.Itoa(i%2)
+			cur = append(cur, types.NewRecordAndContext(toMlrmap(r), &c2))
+			continue
+		}
 		cur = append(cur, types.NewRecordAndContext(toMlrmap(r), ctx))
 	}
 	cur = append(cur, types.NewEndOfStreamMarker(ctx))
@@ -106,6 +121,12 @@ func init() {
 	ops["pair"] = func(a []string) string {
 		rs := decodeRecords(a[2])
 		return verbsResult(splitFlags(a[0]), rs) + " " + verbsResult(splitFlags(a[1]), rs)
+	}
+	// verbsx: like verbs, with contexts that do not reflect arrival order
+	ops["verbsx"] = func(a []string) string {
+		scrambleContexts = true
+		defer func() { scrambleContexts = false }()
+		return verbsResult(splitFlags(a[0]), decodeRecords(a[1]))
 	}
 	// verbs <argv> <records> => records | err
 	ops["verbs"] = func(a []string) string {
